@@ -218,3 +218,26 @@ pub proof fn lemma_store_zeros_nf(t: St, mb: Register, k: int)
         lemma_st_eq(store_zeros_effect(nf(t), mb, k - 1), nf(store_zeros_effect(t, mb, k - 1)));
     }
 }
+
+// ---- objects of any size: linked blocks --------------------------------------------------------------
+
+/// effect of `store_fields` on a flag-free state `t`: the bindings `bs` (environment positions rem ..) are
+/// stored right to left into a chain of blocks - at most 3 values in the last block, 2 values and the link to
+/// the previously filled block in every other one; every filled block is `HEAP` (rbx), and after filling it a
+/// new block is acquired into the first temporary after the variables still to be stored. An empty object is
+/// marked by a null pointer. Every intermediate state is flag-free (`nf`).
+pub open spec fn store_fields_effect(t: St, bs: Seq<ContextBinding>, rem: int, last: bool) -> St
+    decreases bs.len(),
+{
+    let n = bs.len() as int;
+    if n == 0 {
+        if last { nf(set(t, tfp(2 * rem), 0)) } else { t }
+    } else {
+        let t1 = if !last { nf(store_field_effect(t, tfp(2 * (rem + n)), Register(2), 48int)) } else { t };
+        let cap = if last { 3int } else { 2int };
+        let rest = if n <= cap { 0int } else { n - cap };
+        let t2 = nf(store_values_effect(t1, bs.subrange(rest, n), rem + rest, Register(2), cap));
+        let t3 = nf(acquire_effect(t2, tfp(2 * (rem + rest))));
+        store_fields_effect(t3, bs.subrange(0, rest), rem, false)
+    }
+}
